@@ -10,6 +10,13 @@ import (
 	"verifharness/internal/c06"
 	"verifharness/internal/c07"
 	"verifharness/internal/c20"
+	"verifharness/internal/c08"
+	"verifharness/internal/c14"
+	"verifharness/internal/c15"
+	"verifharness/internal/c16"
+	"verifharness/internal/c17"
+	"verifharness/internal/c18"
+	"verifharness/internal/c19"
 	"verifharness/internal/common"
 )
 
@@ -20,10 +27,19 @@ var subs = map[string]sub{
 	"c06": c06.Run,
 	"c07": c07.Run,
 	"c20": c20.Run,
+	"c08": c08.Run,
+	"c14": c14.Run,
+	"c15": c15.Run,
+	"c16": c16.Run,
+	"c17": c17.Run,
+	"c18": c18.Run,
+	"c19": c19.Run,
 }
 
 var gens = map[string]func(outDir string) error{
-	"registry": c06.GenRegistry,
+	"registry":  c06.GenRegistry,
+	"ruletable": c15.GenRuleTable,
+	"ir":        c17.GenIR,
 }
 
 func main() {
